@@ -97,6 +97,9 @@ func main() {
 				}
 			}()
 			fn(env)
+			if *tier == "thorough" {
+				thorough(p, rep, id, *repo, *verif)
+			}
 			env.Common()
 		}()
 		if onlyKey != "" {
